@@ -71,7 +71,16 @@ func c20ExtraOps(h *History, g *G) []*Op {
 			if len(spot) > 0 {
 				o := spot[g.Pick("c20/so", len(spot))]
 				if g.Bool("c20/multi") {
-					op = &Op{Signer: u, Kind: "c20.cancel_spot", Msg: &tstypes.MsgCancelSpotOrders{Creator: u.Addr.String(), SpotOrderIds: []uint64{o.OrderId}}}
+					ids := []uint64{o.OrderId}
+					for _, o2 := range spot {
+						if o2.OrderId != o.OrderId && g.Bool("c20/more") {
+							ids = append(ids, o2.OrderId)
+						}
+					}
+					if g.Int("c20/dup", 0, 4) == 0 {
+						ids = append(ids, ids[0])
+					}
+					op = &Op{Signer: u, Kind: "c20.cancel_spot", Msg: &tstypes.MsgCancelSpotOrders{Creator: u.Addr.String(), SpotOrderIds: ids}}
 				} else {
 					op = &Op{Signer: u, Kind: "c20.cancel_spot", Msg: &tstypes.MsgCancelSpotOrder{OwnerAddress: u.Addr.String(), OrderId: o.OrderId}}
 				}
@@ -80,7 +89,16 @@ func c20ExtraOps(h *History, g *G) []*Op {
 			if len(perp) > 0 {
 				o := perp[g.Pick("c20/po", len(perp))]
 				if g.Bool("c20/multi") {
-					op = &Op{Signer: u, Kind: "c20.cancel_perp", Msg: &tstypes.MsgCancelPerpetualOrders{OwnerAddress: u.Addr.String(), OrderIds: []uint64{o.OrderId}}}
+					ids := []uint64{o.OrderId}
+					for _, o2 := range perp {
+						if o2.OrderId != o.OrderId && g.Bool("c20/more") {
+							ids = append(ids, o2.OrderId)
+						}
+					}
+					if g.Int("c20/dup", 0, 4) == 0 {
+						ids = append(ids, ids[0])
+					}
+					op = &Op{Signer: u, Kind: "c20.cancel_perp", Msg: &tstypes.MsgCancelPerpetualOrders{OwnerAddress: u.Addr.String(), OrderIds: ids}}
 				} else {
 					op = &Op{Signer: u, Kind: "c20.cancel_perp", Msg: &tstypes.MsgCancelPerpetualOrder{OwnerAddress: u.Addr.String(), OrderId: o.OrderId}}
 				}
@@ -265,6 +283,16 @@ func CheckC20(h *History, blk *BlockRecord) []Violation {
 			return ""
 		}
 		checkOwner := func(kind string, ids []uint64, ownerOf func(uint64) string, cancelled map[uint64]string) {
+			// a batch of the signer's own, distinct, pending orders none of which an execution request of this block
+			// names is as clear-cut as a single one
+			clean := true
+			seen := map[uint64]bool{}
+			for _, id := range ids {
+				if ownerOf(id) != signer || seen[id] || execNamedSpot[id] || execNamedPerp[id] {
+					clean = false
+				}
+				seen[id] = true
+			}
 			for _, id := range ids {
 				owner := ownerOf(id)
 				if owner == "" {
@@ -277,7 +305,7 @@ func CheckC20(h *History, blk *BlockRecord) []Violation {
 					if tx.Code == 0 && cancelled != nil {
 						cancelled[id] = signer
 					}
-					if tx.Code != 0 && kind == "cancel" && len(ids) == 1 && txCount[signer] == 1 && !execNamedSpot[id] && !execNamedPerp[id] {
+					if tx.Code != 0 && kind == "cancel" && clean && txCount[signer] == 1 {
 						out = append(out, Violation{Sig: "C20/owner-cancel-failed", Detail: fmt.Sprintf("%s could not cancel its own pending order %d: %s (height %d; %s)", tx.Signer, id, shorten(tx.Log, 200), cur.Height, blockSummary(blk))})
 					}
 				}
